@@ -14,7 +14,7 @@ RULE = ("every single insertion (thorough: every pair) of each of 11 bad-piece k
         "of 3 valid base documents whose units are linked by every kind of $ref edge (a fourth base holds several operations per path owning inline classes and shared path-item parameters that some operations re-declare: the bad piece is also inserted into the shared parameter, carried only by the operations that inherit it), plus every single under every permutation "
         "of components.schemas of one base; oracle: modules outside the reverse-dependency cone byte-identical to those of the "
         "cone-free document, remaining tree importable and closed, diagnostics present, nothing invented; non-trivial = the "
-        "faulted document was generated and compared")
+        "faulted document was generated and compared; bases include reference cycles; piece kinds include a bad shared path-item parameter and a bad second media type next to a healthy referenced body; a generator crash caused by the piece while the cone-free document generates is reported as damage")
 FLOOR = 0.6
 ASSUMPTIONS = ["RM-deps (reverse reachability over $ref edges, through component parameters/responses/request bodies) defines the cone",
                "what happens inside the cone is not pinned, only that it is diagnosed and importable"]
